@@ -433,6 +433,10 @@ func genCase(t *rapid.T, fn string) *Case {
 		c.Hex = []string{hx(rapid.SliceOfN(rapid.Byte(), 32, 32).Draw(t, "a")), hx(rapid.SliceOfN(rapid.Byte(), 32, 32).Draw(t, "b"))}
 	case "VerifyMerkleBranch":
 		depth := uint64(rapid.IntRange(0, 33).Draw(t, "depth"))
+		if rapid.IntRange(0, 5).Draw(t, "deep") == 0 {
+			// trees as deep as the index is wide, and deeper (index bits beyond 63 are zero)
+			depth = rapid.SampledFrom([]uint64{34, 40, 62, 63, 64, 64, 65, 70}).Draw(t, "deep_depth")
+		}
 		var index uint64
 		switch rapid.IntRange(0, 3).Draw(t, "ik") {
 		case 0:
@@ -473,7 +477,11 @@ func genCase(t *rapid.T, fn string) *Case {
 			note = "root-bitflip"
 		case 6:
 			if depth > 0 {
-				b := rapid.IntRange(0, int(depth)-1).Draw(t, "ibit")
+				top := int(depth) - 1
+				if top > 63 {
+					top = 63
+				}
+				b := rapid.IntRange(0, top).Draw(t, "ibit")
 				qIndex = index ^ (1 << uint(b))
 				note = "index-bitflip"
 			}
@@ -519,7 +527,7 @@ var fns = []struct {
 func TestCheck(t *testing.T) {
 	r := report.Begin("C19")
 	defer r.Finish()
-	r.Rule("cases drawn per helper from boundary-biased uint64 generators (0,1,2^k±2,squares±2,2^32±3,max-4..max, representability edges) and Merkle trees of depth 0..33; non-trivial = input within distance 2 of a boundary value or a Merkle/hash case with depth>=1 / len>=1; distinct key = (function, boundary class, low bits of arguments)")
+	r.Rule("cases drawn per helper from boundary-biased uint64 generators (0,1,2^k±2,squares±2,2^32±3,max-4..max, representability edges) and Merkle trees of depth 0..33 and 34..70 (as deep as / deeper than the index is wide); non-trivial = input within distance 2 of a boundary value or a Merkle/hash case with depth>=1 / len>=1; distinct key = (function, boundary class, low bits of arguments)")
 	r.Assume("math/big and crypto/sha256 are correct", "NextPowerOfTwo(0) is pinned to 0 by the repository's own test and not judged", "IntegerSquareRootPrysm (float based, unused by the transition) is not part of the property")
 	replay := func(raw json.RawMessage) *report.Failure {
 		var c Case
